@@ -44,13 +44,13 @@ def file_effects(p, f, since=0):
 
 
 def is_terminator(d):
+    from .vbs import packed_u32_value
     if not isinstance(d, SeqV):
         return False
     if d.is_lit() and d.lit_value() == b'\x00\x00\x00\x00':
         return True
-    return len(d.segs) == 1 and isinstance(d.segs[0], Opq) and isinstance(d.segs[0].desc, tuple) and \
-        d.segs[0].desc[0] == 'pack' and len(d.segs[0].desc[2]) == 1 and isinstance(d.segs[0].desc[2][0], IntV) and \
-        d.segs[0].desc[2][0].lin == Lin.const(0)
+    pv = packed_u32_value(d)
+    return pv is not None and pv.lin == Lin.const(0)
 
 
 def check(prog, res, tier):
